@@ -132,14 +132,14 @@ def plan_c02(tier, seed):
     hs += [H(n, domain='v: every f32 in [-2,2]', desc='chroma quantiser incl. the full-range -0.5 special case') for n in depth_names('quant_chroma', 'thorough')]
     hs += [H(n, domain='v: all 2^32 f32 bit patterns', desc='emitted luma and chroma codes <= 2^n-1') for n in depth_names('codes_valid', 'thorough')]
     hs += [H(f'encode_{m}', domain='input-free', desc='every f32 entry of the real get_rgb_to_yuv_matrix within 6e-8 of the H.273 closed form (f64)') for m in MATS]
-    return {'verus': [('u_color', {})],
+    return {'verus': [('u_color', {}), ('u_dispatch', {})],
             'kani': [{'crate_dir': '', 'inject': [YR, KC], 'harnesses': hs}]}
 reg('C02', plan=plan_c02, level='proof', min_obligations=400,
     title='RGB->YUV encoding rounds to the nearest H.273 code',
     technique='Kani function-level proofs of the real quantiser over every f32 (round, saturating cast, clamp, special case) against the exact f64 ideal; Verus: encode matrix = H.273 (exact), output config/dimensions by plane-loop contracts',
     text='Complete bit-precise proof (Kani, loop-free, v symbolic over every f32 in [-2,2] and, for validity, over all 2^32 bit patterns) that from_f32_luma/from_f32_chroma with the real get_scale_offset '
          'produce the code nearest to range*v+black clamped to [0,2^n-1], all depths 8..16, both ranges, u8/u16; all 7 real encode matrices are bit-precisely within 6e-8 of the H.273 closed form and '
-         'equal it exactly under real semantics (Verus, symbolic in Kr,Kb); the output carries the requested config and dimensions (Verus contract on ypbpr_to_ycbcr / Yuv::new). '
+         'equal it exactly under real semantics (Verus, symbolic in Kr,Kb); the output carries the requested config (Unspecified fields resolved) and dimensions, plane sizes (w>>ss_x, h>>ss_y) (Verus contracts on rgb_to_yuv / ypbpr_to_ycbcr / Yuv::new / the TryFrom body, U-dispatch). '
          'Not proved: f32 rounding of the 3x3 product feeding the quantiser for arbitrary RGB triples.',
     note=EXACT + ' for the matrix layer; ' + BITPRECISE + '. ' + TOOLS,
     assumptions=[EXACT, BITPRECISE, 'v_frame accessor contracts (see C07/C11)'],
@@ -168,8 +168,8 @@ reg('C08', plan=plan_c08, level='proof', min_obligations=400,
     design_ref='DESIGN.md §5 C08')
 
 # ------------------------------------------------------------------------------------------- C07 / C11 / C12 (U-planes)
-PLANES_ASSUME = ['v_frame accessor contracts (Plane::new for xpad=ypad=0, data_origin(_mut), PlaneData::len, Plane::iter via any_sample_exceeds) transcribed from their bodies, not verified',
-                 'allocation sizes fit usize: (width+64)*height <= usize::MAX (precondition of Plane::new)',
+PLANES_ASSUME = ['v_frame: PlaneConfig::new and Fixed::align_power_of_two are extracted from the registry source and VERIFIED; assumed (transcribed from their bodies): PlaneData::new allocates stride*alloc_height samples initialised to 128, data_origin(_mut), PlaneData::len, Plane::iter via any_sample_exceeds',
+                 'allocation sizes fit usize: (width+128)*height <= usize::MAX (precondition of Plane::new); images are non-degenerate (width > 0 or height == 0: v_frame PlaneIter panics otherwise)',
                  '64-bit target (size_of usize == 8); subsampling shifts < 64; bit depth 8..16',
                  'scalar float kernels are deterministic functions (uninterpreted in E1)',
                  '<[T]>::get_unchecked(_mut) safety contract is index < len']
